@@ -282,6 +282,7 @@ type agg struct {
 	Found      []found        `json:"found"`
 	KnownHits  map[string]int `json:"known_hits"`
 	WallS      float64        `json:"wall_s"`
+	Partial    bool           `json:"partial,omitempty"`
 	Replayed   *replayResult  `json:"replayed,omitempty"`
 }
 
@@ -574,6 +575,9 @@ func cmdCheck(args []string) int {
 						merged.Samples = append(merged.Samples, a.Samples...)
 					}
 					founds = append(founds, a.Found...)
+					if a.Partial && a.LastRun+1 < c.to && a.LastRun >= c.from {
+						queue = append(queue, chunk{a.LastRun + 1, c.to})
+					}
 				}
 				if r.exitCode != 0 || r.agg == nil {
 					switch {
